@@ -370,7 +370,14 @@ func runImpl(c *Case, genData, must bool) (o outcome) {
 // (`$....*` with {"z":1}: known finding C13-set-self-containing). Such calls are made in a child process.
 const selfContainingID = "C13-set-self-containing"
 
+// alwaysChild: every call goes through a child process (replay mode: a replayed call may be one that does not return)
+var alwaysChild bool
+
 func (c *Case) mayNotReturn() bool {
+	if os.Getenv("VERIF_JPMUT_NOCHILD") != "" {
+		// test hook for the watchdog: make the call in-process (the run then ends early with a `hang` violation)
+		return false
+	}
 	if c.Op != "set" || !(strings.HasPrefix(c.Val, "[") || strings.HasPrefix(c.Val, "{")) {
 		return false
 	}
@@ -390,8 +397,8 @@ type childResult struct {
 const (
 	childSeconds  = 4
 	childHeapMiB  = 768
-	stuckSeconds  = 20
-	stuckHeapGiB  = 8
+	stuckSeconds  = 10
+	stuckHeapGiB  = 4
 	childExitTime = 7
 	childExitMem  = 8
 )
@@ -936,7 +943,7 @@ func (w *worker) run(c *Case) error {
 	dw := c.t.wire(nil)
 
 	var impl, must [2]outcome
-	if c.mayNotReturn() {
+	if c.mayNotReturn() || alwaysChild {
 		// run in a child process that gives up after a time and memory limit
 		rep.Count("calls.in_child_process", 1)
 		var how string
@@ -948,6 +955,11 @@ func (w *worker) run(c *Case) error {
 					how = "the data contains itself afterwards"
 				}
 			}
+		}
+		if how != "" && !c.mayNotReturn() {
+			rep.Count("clause.hang", 1)
+			c.finding("violation", "hang", c.name()+" does not return: "+how, map[string]any{"how": how})
+			return nil
 		}
 		if how != "" {
 			rep.Count("clause.self-containing", 1)
@@ -1677,9 +1689,13 @@ func runReplay() {
 	w := &worker{d: d}
 	*verbose = true
 	fmt.Println("case:", c.String())
-	for _, g := range []bool{false, true} {
-		o := runImpl(&c, g, false)
-		fmt.Printf("  impl gen=%v: %s %s\n", g, o.String(), o.msg)
+	alwaysChild = true
+	if impl, _, how := callInChild(&c); how != "" {
+		fmt.Println("  impl:", how)
+	} else {
+		for g := 0; g < 2; g++ {
+			fmt.Printf("  impl gen=%v: %s %s\n", g == 1, impl[g].String(), impl[g].msg)
+		}
 	}
 	if err := w.run(&c); err != nil {
 		fmt.Fprintln(os.Stderr, err)
